@@ -32,8 +32,8 @@ func c06rSigs() []c06rSig {
 			attrs:   func(d any) pcommon.Map { return d.(plog.Logs).ResourceLogs().At(0).Resource().Attributes() },
 			markRO:  func(d any) { d.(plog.Logs).MarkReadOnly() },
 			isRO:    func(d any) bool { return d.(plog.Logs).IsReadOnly() },
-			route: func(all []bool, sel []int, cb func(int, any) error) (func(any) error, bool, error) {
-				ids := c06rIDs(pipeline.SignalLogs, len(all))
+			route: func(all []bool, sel []int, cb func(int, any) error, later ...[]int) (func(any) error, bool, error) {
+				ids := c06rIDs(pipeline.SignalLogs, len(all)+2)
 				cm := map[pipeline.ID]consumer.Logs{}
 				for i, m := range all {
 					i := i
@@ -44,9 +44,18 @@ func c06rSigs() []c06rSig {
 				for _, i := range sel {
 					s = append(s, ids[i])
 				}
-				c, err := NewLogsRouter(cm).Consumer(s...)
+				rt := NewLogsRouter(cm)
+				c, err := rt.Consumer(s...)
 				if err != nil {
 					return nil, false, err
+				}
+				// further routes requested from the SAME router after this one (the consumer returned above is kept and used later)
+				for _, l := range later {
+					var ls []pipeline.ID
+					for _, i := range l {
+						ls = append(ls, ids[i])
+					}
+					_, _ = rt.Consumer(ls...)
 				}
 				return func(d any) error { return c.ConsumeLogs(context.Background(), d.(plog.Logs)) }, c.Capabilities().MutatesData, nil
 			},
@@ -64,8 +73,8 @@ func c06rSigs() []c06rSig {
 			attrs:   func(d any) pcommon.Map { return d.(pmetric.Metrics).ResourceMetrics().At(0).Resource().Attributes() },
 			markRO:  func(d any) { d.(pmetric.Metrics).MarkReadOnly() },
 			isRO:    func(d any) bool { return d.(pmetric.Metrics).IsReadOnly() },
-			route: func(all []bool, sel []int, cb func(int, any) error) (func(any) error, bool, error) {
-				ids := c06rIDs(pipeline.SignalMetrics, len(all))
+			route: func(all []bool, sel []int, cb func(int, any) error, later ...[]int) (func(any) error, bool, error) {
+				ids := c06rIDs(pipeline.SignalMetrics, len(all)+2)
 				cm := map[pipeline.ID]consumer.Metrics{}
 				for i, m := range all {
 					i := i
@@ -76,9 +85,18 @@ func c06rSigs() []c06rSig {
 				for _, i := range sel {
 					s = append(s, ids[i])
 				}
-				c, err := NewMetricsRouter(cm).Consumer(s...)
+				rt := NewMetricsRouter(cm)
+				c, err := rt.Consumer(s...)
 				if err != nil {
 					return nil, false, err
+				}
+				// further routes requested from the SAME router after this one (the consumer returned above is kept and used later)
+				for _, l := range later {
+					var ls []pipeline.ID
+					for _, i := range l {
+						ls = append(ls, ids[i])
+					}
+					_, _ = rt.Consumer(ls...)
 				}
 				return func(d any) error { return c.ConsumeMetrics(context.Background(), d.(pmetric.Metrics)) }, c.Capabilities().MutatesData, nil
 			},
@@ -96,8 +114,8 @@ func c06rSigs() []c06rSig {
 			attrs:   func(d any) pcommon.Map { return d.(ptrace.Traces).ResourceSpans().At(0).Resource().Attributes() },
 			markRO:  func(d any) { d.(ptrace.Traces).MarkReadOnly() },
 			isRO:    func(d any) bool { return d.(ptrace.Traces).IsReadOnly() },
-			route: func(all []bool, sel []int, cb func(int, any) error) (func(any) error, bool, error) {
-				ids := c06rIDs(pipeline.SignalTraces, len(all))
+			route: func(all []bool, sel []int, cb func(int, any) error, later ...[]int) (func(any) error, bool, error) {
+				ids := c06rIDs(pipeline.SignalTraces, len(all)+2)
 				cm := map[pipeline.ID]consumer.Traces{}
 				for i, m := range all {
 					i := i
@@ -108,9 +126,18 @@ func c06rSigs() []c06rSig {
 				for _, i := range sel {
 					s = append(s, ids[i])
 				}
-				c, err := NewTracesRouter(cm).Consumer(s...)
+				rt := NewTracesRouter(cm)
+				c, err := rt.Consumer(s...)
 				if err != nil {
 					return nil, false, err
+				}
+				// further routes requested from the SAME router after this one (the consumer returned above is kept and used later)
+				for _, l := range later {
+					var ls []pipeline.ID
+					for _, i := range l {
+						ls = append(ls, ids[i])
+					}
+					_, _ = rt.Consumer(ls...)
 				}
 				return func(d any) error { return c.ConsumeTraces(context.Background(), d.(ptrace.Traces)) }, c.Capabilities().MutatesData, nil
 			},
